@@ -384,7 +384,8 @@ class Env:
 
 MATH_FUNCS = {
     "sqrt", "exp", "tanh", "arctan", "atan", "sin", "cos", "acos", "arccos",
-    "log", "log1p", "floor", "ceil", "isfinite", "cbrt",
+    "log", "log1p", "floor", "ceil", "isfinite", "cbrt", "radians",
+    "degrees", "hypot",
 }
 
 
@@ -755,6 +756,12 @@ class Evaluator:
                 n.args) == 1 and isinstance(n.args[0], ast.Subscript) \
                 and not n.keywords:
             return self._reduction_call(env, fn.id, n.args[0])
+        if isinstance(fn, ast.Attribute) and isinstance(
+                fn.value, ast.Name) and fn.value.id in ("np", "numpy") \
+                and fn.attr in ("max", "min", "amax", "amin") and len(
+                n.args) == 1 and isinstance(n.args[0], ast.Subscript) \
+                and not n.keywords:
+            return self._reduction_call(env, fn.attr[-3:], n.args[0])
         if isinstance(fn, ast.Name):
             name = fn.id
         elif isinstance(fn, ast.Attribute) and isinstance(
@@ -887,6 +894,10 @@ class Evaluator:
         if isinstance(s, (ast.Assign, ast.AnnAssign)) and \
                 self._slice_view(env, s):
             return env
+        if isinstance(s, ast.Import) and all(
+                a.asname is None and a.name in ("math", "numpy")
+                for a in s.names):
+            return env          # `import math` inside a function
         if isinstance(s, ast.Assign):
             v = self.expr(env, s.value)
             for t in s.targets:
